@@ -647,3 +647,21 @@ impl CBORTaggedDecodable for Compressed {
     #[verifier::external_body]
     fn from_untagged_cbor(cbor: CBOR) -> (r: Result<Self>) { unimplemented!() }
 }
+
+// ============================================================================ std::collections::HashSet<Digest> helpers
+// [A-hashset-extend] `set.extend(other.iter().cloned())` inserts every element of other (rule R-subst in proof.rs)
+#[verifier::external_body]
+pub fn hashset_extend_from(set: &mut HashSet<Digest>, other: &HashSet<Digest>)
+    ensures final(set)@ == old(set)@.union(other@)
+{ unimplemented!() }
+// [A-hashset-clone] HashSet<Digest>::clone (rule R-subst: vstd gives it no specification and its generic
+// allocator parameter prevents an assume_specification that mentions the view)
+#[verifier::external_body]
+pub fn hashset_clone(s: &HashSet<Digest>) -> (r: HashSet<Digest>)
+    ensures r@ == s@
+{ unimplemented!() }
+// [A-hashset-is-subset] HashSet<Digest>::is_subset (same reason)
+#[verifier::external_body]
+pub fn hashset_is_subset(a: &HashSet<Digest>, b: &HashSet<Digest>) -> (r: bool)
+    ensures r == a@.subset_of(b@)
+{ unimplemented!() }
